@@ -395,6 +395,66 @@ def _anon(item):
         return ("bad", "harness: " + short_exc(e))
 
 
+def _same_named_healthy(item):
+    """A failed design holding two (three) different healthy modules of one name, as two libraries' `Cell`s are: after the
+    failure each of them is either frozen, or an edit made to it is honoured exactly as a fresh process honours it."""
+    import hdl21 as h
+
+    ncells, fault, entry = item
+
+    def mk_cell(k):
+        m = h.Module(name="Cell")
+        m.i, m.o, m.vss = h.Input(), h.Output(), h.Port()
+        m.add(h.R(r=1 + k)(p=m.i, n=m.o), name="r")
+        return m
+
+    def mk_leaf():
+        leaf = h.Module(name="SLeaf")
+        leaf.a, leaf.z, leaf.vss = h.Input(), h.Output(), h.Port()
+        leaf.r = h.R(r=9)(p=leaf.a, n=leaf.z)
+        return leaf
+
+    def edit(cell, leaf):
+        cell.l1 = leaf(a=cell.i, vss=cell.vss)
+        cell.l2 = leaf(a=cell.l1.z, vss=cell.vss)
+        cell.l2.z = cell.o
+
+    try:
+        cells, leaf = [mk_cell(k) for k in range(ncells)], mk_leaf()
+        top = h.Module(name="SNTop")
+        top.vss = h.Signal()
+        nets = [top.add(h.Signal(name=f"n{k}")) for k in range(ncells + 1)]
+        for k, c in enumerate(cells):
+            top.add(c(i=nets[k], o=nets[k + 1], vss=top.vss), name=f"c{k}")
+        if fault == "missing_conn":
+            top.bad = leaf(a=nets[0], vss=top.vss)
+        else:
+            top.wide = h.Signal(width=2)
+            top.bad = leaf(a=top.wide, z=nets[0], vss=top.vss)
+        try:
+            (h.elaborate if entry == "elaborate" else h.to_proto)(top)
+            return ("skip", "the faulty design was accepted")
+        except Exception:
+            pass
+        for k, c in enumerate(cells):
+            try:
+                edit(c, leaf)
+            except Exception:
+                continue  # frozen
+            fc, fl = mk_cell(k), mk_leaf()
+            edit(fc, fl)
+            ref = h.to_proto(fc).SerializeToString(deterministic=True)
+            try:
+                got = h.to_proto(c).SerializeToString(deterministic=True)
+            except Exception as e:
+                return ("bad", f"{ncells} same-named healthy cells, {fault}: the edit of cell {k} was accepted, its export then fails: {short_exc(e)[:100]}")
+            if got != ref:
+                return ("bad", f"{ncells} same-named healthy cells, {fault}: the edit of cell {k} was accepted, its export differs from a fresh process's")
+    except Exception as e:
+        return ("bad", "harness: " + short_exc(e))
+    return ("ok", None)
+
+
 def core(msg):
     """The informative tail of an error message (the elaboration path prefix differs between attempts)."""
     return msg.strip().splitlines()[-1][-60:]
@@ -714,6 +774,13 @@ def run(ctx):
         ctx.outcome("anon:" + status)
         if status == "bad":
             ctx.violation(dict(fault="nameless_module", continuation=it[2], what=("returned normally" if "returned normally" in detail else "another error")), dict(kind="anon", item=list(it)), detail)
+    for it in [(n, f, e) for n in (2, 3) for f in ("missing_conn", "width") for e in ("elaborate", "to_proto")]:
+        status, detail = _same_named_healthy(it)
+        ctx.count(states=1, transitions=3, traces_validated_against_impl=1)
+        ctx.fam("same_named_healthy_modules", **{status: 1})
+        ctx.outcome("samename:" + status)
+        if status == "bad":
+            ctx.violation(dict(fault="same_named_healthy", continuation="edit_healthy", what=detail.split(":")[-1][:40]), dict(kind="same_named", item=list(it)), detail)
     ctx.sample(dict(kind="injected", item=list(items[len(items) // 2])))
     ctx.sample(dict(kind="real", item=list(ritems[len(ritems) // 2]) if ritems else None))
     ctx.sample(dict(kind="generator", item=["nested", "retry_fixed"]))
@@ -728,6 +795,10 @@ def replay(body):
         return 1 if r[0] == "bad" else 0
     if c["kind"] == "anon":
         r = _anon(tuple(c["item"]))
+        print("replay:", r)
+        return 1 if r[0] == "bad" else 0
+    if c["kind"] == "same_named":
+        r = _same_named_healthy(tuple(c["item"]))
         print("replay:", r)
         return 1 if r[0] == "bad" else 0
     if c["kind"] == "gen_special":
